@@ -49,3 +49,12 @@ claim("C25", "model_checking", "TLA+ spec of writer/channel/reader (TLC invarian
       "executed on the real code with a transport that serves exactly those chunks; wire bytes and delivered packets are compared.",
       "Trusted: TLC, the chunking transport of the harness. Domain: non-empty payloads, valid frame types, CoAP payload >= 4 bytes.",
       "DESIGN.md section 4 C25")
+
+claim("C24", "model_checking", "TLA+ reference semantics (grammar recogniser, Boolean evaluation, printing) enumerated by TLC over every token string + one execution of the real Parse/Eval/String per string; generated modules through the real loader for file inclusion",
+      "BuildTag.tla defines the constraint grammar as a recursive-descent recogniser (no double negation), Eval under a tag assignment and printing with minimal "
+      "parentheses; TLC enumerates every token string over {a,b,c,!,&&,||,(,)} of length <= 6 (quick) / 7 (thorough), emits accept/reject and the truth table, and "
+      "checks that the reference is closed under print/parse. The real buildtag.Parse must accept exactly those strings (two spacings each), Eval must produce the "
+      "same truth table under all 8 assignments, and Parse(String(x)) must succeed with the same table. File inclusion: generated modules with a non-main package "
+      "whose files carry a constraint and its negation are run with `wa run -tags=...`; which file was compiled must match TLC's truth table.",
+      "Trusted: TLC, the token renderer. Bounded: 3 tags, length <= 7; target OS/arch tags only through the -tags mechanism.",
+      "DESIGN.md section 4 C24")
